@@ -7,7 +7,8 @@ package main
 // variable PIGEON_VERIF is set; with the tag off this file is not compiled.
 //
 //	PIGEON_VERIF=astdump   read requests {"id":n,"text":[bytes],"mode":"pigeon"|"bootstrap"} (one JSON
-//	                       object per line) from stdin, write {"id":n,"ok":bool,"errs":[..],"ast":..}
+//	                       object per line) from stdin, write {"id":n,"ok":bool,"errs":[..],"ast":..};
+//	                       with "optimize":true the grammar is optimized ("entry": protected rules) first
 //	PIGEON_VERIF=rebuild   read requests {"id":n,"text":[bytes],"times":k,"optimize":bool,"lr":bool,...}
 //	                       and write the digests of k builds of the same text inside this process
 
@@ -225,6 +226,9 @@ func init() {
 					if v != nil {
 						g, _ = v.(*ast.Grammar)
 					}
+				}
+				if rq.Optimize && g != nil {
+					ast.Optimize(g, rq.Entry...)
 				}
 				res["ok"] = err == nil && g != nil
 				res["errs"] = ""
